@@ -118,6 +118,41 @@ class _NoneReg(NativeModel):
         return None
 
 
+def _tank_memory_case(how, attr):
+    """the crossing memory the evaluate contract presupposes (`_last_value` = the watched attribute at the last look) is what __init__ and _reset establish -
+    also for the conditions the simulator builds afresh on the tank's *head* when a paused run continues"""
+    def build(cx):
+        head, elev, th = cx.real("head"), cx.real("elev"), cx.real("th")
+        cx.assume(cx.t(elev) != 0)
+        tank = mk_node(cx, Tank, "T", _head=head, _elevation=elev, _diameter=cx.real("D"), _vol_curve_name=None, _curve_reg=_NoneReg())
+        if how == "init":
+            holder = []
+
+            def make(t, a, r, v):
+                c = C.TankLevelCondition(t, a, r, v)
+                holder.append(c)
+                return c
+            cx.target(make, tank, attr, Comparison.le, th)
+            cx.interp.interpret_always = tuple(cx.interp.interpret_always) + (make, C.TankLevelCondition)
+        else:
+            cond = cx.obj(C.TankLevelCondition, _source_obj=tank, _source_attr=attr, _relation=Comparison.le, _threshold=th, _backtrack=cx.int("stale_backtrack"),
+                          _last_value=cx.real("stale_last_value"))
+            cx.target(C.TankLevelCondition._reset, cond)
+
+        def post(out):
+            if not out.returned:
+                return []
+            c = out.value if how == "init" else cond
+            lv = cx.interp.getattr(c, "_last_value")
+            want = cx.t(head) if attr == "head" else cx.t(head) - cx.t(elev)
+            posts = [("crossing_memory_starts_at_the_current_value_of_the_watched_attribute", library.as_real(lv) == want)]
+            if how == "init":
+                posts.append(("watches_what_it_was_told_to", cx.interp.getattr(c, "_source_obj") is tank and cx.interp.getattr(c, "_source_attr") == attr))
+            return posts
+        cx.ensure(post)
+    return Case("%s,attr=%s" % (how, attr), build, crosscheck=False)
+
+
 _tank_cases = [_tank_level_case(r, a) for r in (Comparison.ge, Comparison.gt, Comparison.le, Comparison.lt)
                for a in ("level", "head", "pressure")]
 
@@ -384,6 +419,8 @@ CONTRACTS = [
     Contract("wntr.network.controls:TankLevelCondition.evaluate", P + ["C06"], _tank_cases,
              note="cylindrical tank; precondition is the ensures of update_tank_heads (level moved by q*dt/A during the step)",
              trusted=["np.round(x, 10) is the identity (float == R)"]),
+    Contract("wntr.network.controls:TankLevelCondition.__init__/_reset", P + ["C06", "C10"], [_tank_memory_case(h, a) for h in ("init", "reset") for a in ("level", "head", "pressure")],
+             note="establishes the precondition of the evaluate contract (fresh model, reset, and the controls rebuilt when a paused run continues)"),
     Contract("wntr.network.controls:RelativeCondition.evaluate", P, [_relative_case(r) for r in RELS]),
     Contract("wntr.network.controls:And/OrCondition.evaluate+backtrack", P + ["C04"], [_composite_case(C.OrCondition), _composite_case(C.AndCondition)],
              interpret_always=(_eval_and_backtrack,)),
